@@ -19,6 +19,7 @@ def run(rep, tier, seed):
     thorough = tier == "thorough"
     rep.assumptions += ["host contract is spec/Trace_Host.tla (Concat, Closed, SameOutcome); values of oracle programs from spec/Lang.tla",
                         "directed endings family: 27 kinds of final value x 12 contexts that emit code after it (assignment, operators, ternary, computed definition ...) x every tail glued on and after a blank (contract only)",
+                        "boundary family: consumed texts ending in a multi-byte character with every possible final byte (identifier, string, comment, template)",
                         "tails are valid constructs that break off (literal, call, index, block, template, operator, keyword prefixes) after ';', newline, blank or nothing",
                         "a detail text that renders a multi-key dict is compared as a multiset of characters (map order unspecified)"]
     with Work("c03") as w:
@@ -52,7 +53,8 @@ def run(rep, tier, seed):
                 for o, k in ex.map(shard, range(12)):
                     stats["ending_inputs"] = stats.get("ending_inputs", 0) + k
                     out.write(open(o).read())
-            for f in ("corpus.ndjson", "gen.ndjson"):
+            run_vh(["c03-endings", "-boundaries", "-out", w.path("boundaries.ndjson")])
+            for f in ("corpus.ndjson", "gen.ndjson", "boundaries.ndjson"):
                 o = w.path(f + ".ev")
                 r = run_vh(["c03-text", "-in", w.path(f), "-out", o, "-tails", "4" if thorough else "3"], env={"VERIF_SEED": str(seed)}, timeout=3000)
                 stats["text_inputs"] = stats.get("text_inputs", 0) + json.loads(r.stdout.strip().splitlines()[-1])["inputs"]
